@@ -118,7 +118,7 @@ class Scores(Suite):
 
 
 if __name__ == "__main__":
-    main("C04", [Scores()], gen_targets=["delta", "initscore"],
+    main("C04", [Scores()], gen_targets=["delta", "initscore", "biokernel"],
          level_note="see MANIFEST",
          rule="13 algorithm configurations (Borda x2, Copeland, KwikSort, PickAPerm, BioConsert, BioCo, BioConsert with two starters, ParCons "
               "x2, exact selector x2, free-solver model) on incomplete datasets under the unifying family (accepted by all) and on complete "
